@@ -5,5 +5,5 @@ From Coq Require Import String.
 From QSCGen Require Import G_pins.
 Open Scope string_scope.
 
-Lemma pin_get_boundary_current : pin_get_boundary = "62e6abf382d051d37d6adfb770362387229c90e68c8e38ffa408b3f41c6ed004".
+Lemma pin_get_boundary_current : pin_get_boundary = "4f8707d8e9f8941d3f578f9a18e6c90c38fe8663319a647490770d9455ca7904".
 Proof. reflexivity. Qed.
